@@ -17,7 +17,7 @@ Min2(a, b) == IF a <= b THEN a ELSE b
 Max2(a, b) == IF a >= b THEN a ELSE b
 ModelBudget(own, inc) == Min2((Max2(own - 5000, 0) \div 25) + inc, own \div 2)
 
-VARIABLES l, stm, memo     \* memo: set of [stm, own, inc, budget] observations
+VARIABLES l, stm, memo     \* memo: set of [stm, own, inc, mtg, budget] observations
 vars == <<l, stm, memo>>
 TInit == l = 1 /\ stm = "w" /\ memo = {}
 IsEvent(e) == l <= Len(Rec) /\ Rec[l].ev = e /\ l' = l + 1
@@ -28,12 +28,13 @@ TSide == IsEvent("side") /\ (\A k \in DOMAIN SideChecks(Rec[l]) : SideChecks(Rec
 
 Own(e) == IF e.stm = "w" THEN e.go.wtime ELSE e.go.btime
 Inc(e) == IF e.stm = "w" THEN e.go.winc ELSE e.go.binc
-Obs(e) == [stm |-> e.stm, own |-> Own(e), inc |-> Inc(e), budget |-> e.budget]
+Mtg(e) == IF "mtg" \in DOMAIN e.go THEN e.go.mtg ELSE 0
+Obs(e) == [stm |-> e.stm, own |-> Own(e), inc |-> Inc(e), mtg |-> Mtg(e), budget |-> e.budget]
 GoChecks(e) ==
   IF Has(e, "panic") \/ ~Has(e, "budget") THEN [C12_parser_survives_and_reaches_the_search |-> FALSE]
   ELSE [H_side |-> e.stm = stm,
         C12_fits_own_clock |-> FitsClock(Own(e), e.budget),
-        C12_own_clock_only |-> \A x \in memo : (x.stm = e.stm /\ x.own = Own(e) /\ x.inc = Inc(e)) => x.budget = e.budget]
+        C12_own_clock_only |-> \A x \in memo : (x.stm = e.stm /\ x.own = Own(e) /\ x.inc = Inc(e) /\ x.mtg = Mtg(e)) => x.budget = e.budget]
 TGo == /\ IsEvent("go")
        /\ \A k \in DOMAIN GoChecks(Rec[l]) : GoChecks(Rec[l])[k]
        /\ memo' = memo \cup {Obs(Rec[l])}
